@@ -201,12 +201,15 @@ class Subjac(object):
         dict
             Instance metadata.
         """
-        subjac_class = Subjac.get_subjac_class(pattern_meta)
         meta = _init_meta(pattern_meta, prev_inst_meta)
         pat_val = pattern_meta.get('val')
         if pat_val is None:
             meta['val'] = None
         meta['shape'] = shape
+        # a pattern that leaves rows/cols/diagonal unset (e.g. the approximation declared by
+        # declare_coloring) keeps those of an earlier declaration of the same pair, so the class
+        # must be chosen from the merged metadata
+        subjac_class = Subjac.get_subjac_class(meta)
         return subjac_class._update_instance_meta(meta, system, key)
 
     def _init_val(self):
